@@ -10,7 +10,33 @@ def run(tier, seed):
             'early-stop time with probability 0.35, or delivers 0..N+2 suggestions, each followed by further calls of the same and '
             'other workers; RAM and in-memory SQLite; non-trivial = at least 3 successful calls'),
       pre=svcrun.regenerate_handler_sources,
-      monitors=[svcmon.c06_step, svcrun.wrap(svcmon.c01_step)], backends=('ram', 'sqlmem'), profile={'suggest': 0.45, 'fail': 0.35}, extra=lambda rep, tier, seed, known, r: _both(early_stop_shapes(rep, tier, seed, known, r), unusual_failures(rep, tier, seed, known, r)))
+      monitors=[svcmon.c06_step, svcrun.wrap(svcmon.c01_step)], backends=('ram', 'sqlmem'), profile={'suggest': 0.45, 'fail': 0.35}, extra=lambda rep, tier, seed, known, r: _both(_both(early_stop_shapes(rep, tier, seed, known, r), unusual_failures(rep, tier, seed, known, r)), delivery_matrix(rep, tier, seed, known, r)))
+
+
+def delivery_matrix(rep, tier, seed, known, r):
+  """Every combination of (ACTIVE trials the worker already has, suggestions still missing, suggestions the algorithm delivers):
+  0 or 2 own trials, 1..5 missing, 0..missing+2 delivered - a short delivery is handed out as it is, a surplus is queued, and the
+  next request of the same and of another worker is served."""
+  from harness import svcmon
+  matrix = [(own, m, d) for own in (0, 2) for m in range(1, 6) for d in range(0, m + 3)]
+  if tier == 'quick':
+    r.shuffle(matrix)
+    matrix = sorted(matrix[:36])
+  it = iter(matrix)
+
+  def gen(_r):
+    own, m, d = next(it)
+    seq = [('CreateStudy', 1, 1, False, 'SS_ACTIVE', [(1, True)])]
+    if own:
+      seq.append(('SuggestTrials', 1, 1, 1, own, ('deliver', list(range(10, 10 + own)), [], [])))
+    seq.append(('SuggestTrials', 1, 1, 1, own + m, ('deliver', list(range(20, 20 + d)), [], [])))
+    seq.append(('SuggestTrials', 1, 1, 1, own + m, ('deliver', list(range(40, 40 + m)), [], [])))
+    seq.append(('SuggestTrials', 1, 1, 2, 1, ('deliver', [60], [], [])))
+    seq.append(('ListTrials', 1, 1))
+    rep.count('delivery_own%d_missing%d_delivered%d' % (own, m, d))
+    return seq
+  return svcrun.service_part(rep, 'C06', r, tier, known, monitors=[svcmon.c06_step, svcrun.wrap(svcmon.c01_step)], backends=('ram', 'sqlmem'),
+                             nseq_quick=len(matrix), nseq_thorough=len(matrix), tag='deliv', seqgen=gen)
 
 
 def _both(a, b):
